@@ -977,7 +977,7 @@ func TestVerifC14Conc(t *testing.T) {
 	}
 	rep := verifutil.NewReport()
 	defer rep.Write()
-	nRuns := verifutil.Scale(2, 24)
+	nRuns := verifutil.Scale(2, 40)
 	seen := map[string]bool{}
 	for i := 0; i < nRuns; i++ {
 		run := i
